@@ -56,12 +56,16 @@ struct IntrusiveTreiber : IStack {
     }
     bool push( long v ) override
     {
+        set_quiet( true );              // constructing the client's node (its constructor stores null into m_pNext) is not part of push()
         items.emplace_back( new item );
+        set_quiet( false );
         item* p = items.back().get();
         p->v = v;
+        // nodes are named by the order in which pushes are INVOKED in this case (n1, n2, …): this is the order in
+        // which the Lean machine Algo/Treiber allocates node ids, so traces can be replayed against it (tie A)
         char nm[32];
-        std::snprintf( nm, sizeof nm, "n%ld", v );
-        reg_name( p, sizeof( item ), nm );
+        std::snprintf( nm, sizeof nm, "n%zu", items.size());
+        reg_name( &p->m_pNext, sizeof( p->m_pNext ), nm );
         return st->push( *p );
     }
     bool pop( long& v ) override
